@@ -2,7 +2,13 @@
 
 Bounded run-time harness on the real ``farm.Hand.dataReceived``,
 ``shelve.comms.Worker.dataReceived``, ``logger.LogSink.dataReceived`` and
-``security.TwistedWrapper`` (fake transport, fake PGP).
+``security.TwistedWrapper`` (fake transport, fake PGP), and on the blocking
+socket-side reader ``dawgie.pl.message.receive`` (the reader of the workers'
+wait/task loop, of ``Context.abort`` and of the shelve lock clients
+``comms.acquire`` / ``comms.release``): streams of 2-4 messages framed by the
+real senders (``message.send``, ``comms.Worker._send``) are read through a fake
+socket whose ``recv(n)`` returns at most n bytes and never more than up to the
+next cut (fragmentation, coalescing, and both at once).
 '''
 
 import datetime as _datetime
@@ -48,7 +54,14 @@ BOUND = (
     'short/long length fields) x 4 kinds of trailing application bytes, '
     'every 2-chunk split; every 3-chunk split for the fault-free and '
     'single-fault variants (farm; quick: subset), seed-sampled k-chunk '
-    'splits'
+    'splits. '
+    'receive: message.receive on a fake socket (recv(n) = min(n, bytes up to '
+    'the next cut)) over 5 streams of 2-4 real frames (lock status replies '
+    '2x57 and 3x57 bytes; farm wait/task/abort messages, 207-361 bytes): no '
+    'cut, whole frames, 1-byte segments, every single cut; every pair of cuts '
+    'for the streams <= 300 bytes (quick) / all (thorough), every pair on a '
+    'grid of stride 4 (all offsets) for the longest (quick), seed-sampled '
+    'sets of 2-7 cuts, every triple of cuts for the shortest (thorough)'
 )
 CLAUSES = [
     'C14.reassembly.farm',
@@ -57,6 +70,7 @@ CLAUSES = [
     'C14.handshake.gate',
     'C14.handshake.tail',
     'C14.handshake.fail',
+    'C14.receive',
 ]
 
 pc.quiet()
@@ -394,6 +408,131 @@ def _lookup_stream(name, kind, label):
     raise KeyError(label)
 
 
+# ------------------------------------------- the blocking reader (receive)
+#
+# message.receive(s) pulls from a socket: recv(n) gives it at most n bytes,
+# and at most what the network has delivered so far.  The fake socket below
+# holds the whole stream (everything "has arrived": maximal coalescing) but
+# hands it out in segments that end at the cut positions (fragmentation).
+# With no cut at all the reader alone decides how much it takes.
+
+
+class EndOfStream(Exception):
+    '''recv() after the last byte: a real socket would block for ever'''
+
+
+class _Sink:  # pylint: disable=too-few-public-methods
+    '''socket-like object the real senders write to'''
+
+    def __init__(self):
+        self.data = b''
+
+    def sendall(self, b):
+        self.data += bytes(b)
+
+
+class SegmentSocket:
+    '''recv(n) -> min(n, bytes up to the next cut) bytes of the stream'''
+
+    def __init__(self, data, cuts):
+        self.data = data
+        self.pos = 0
+        self.edges = sorted(set(cuts)) + [len(data)]
+        self.calls = 0
+
+    def recv(self, n, *_flags):
+        self.calls += 1
+        if self.calls > 4 * len(self.data) + 64:
+            raise RuntimeError('the reader makes no progress (recv called %d times)' % self.calls)
+        if n <= 0:
+            return b''  # what a real socket answers
+        if self.pos >= len(self.data):
+            raise EndOfStream('recv(%d) past the end of the stream (a real socket would block)' % n)
+        while self.edges[0] <= self.pos:
+            self.edges.pop(0)
+        end = min(self.pos + n, self.edges[0])
+        out = self.data[self.pos : end]
+        self.pos = end
+        return out
+
+
+_RECV_STREAMS = {}
+
+
+def recv_streams():
+    '''label -> (family, [objects], bytes): what the real senders put on the
+    wire for 2-4 messages (built once per process)'''
+    if _RECV_STREAMS:
+        return _RECV_STREAMS
+    from dawgie.db.shelve.enums import Mutex  # pylint: disable=import-outside-toplevel
+
+    # the data base lock channel: comms.Worker answers locked, ..., yours
+    for label in ('LU', 'LLU'):
+        ch = Channel('db', tls=True)
+        objs = [Mutex.lock if c == 'L' else Mutex.unlock for c in label]
+        for o in objs:
+            ch.proto._send(o)  # pylint: disable=protected-access
+        _RECV_STREAMS[label] = ('lock', objs, ch.transport.data())
+    # the farm channel seen from a worker: wait, ..., task (or an abort)
+    kinds = {
+        'W': message.make(),
+        'A': message.make(typ=message.Type.response, suc=False),
+        'T': message.make(
+            ctxt=b'ctx',
+            fac=('ae.tsk', 'task'),
+            jid='tsk.alg',
+            rid=7,
+            target='TGT',
+            tim={'scheduled': 0},
+            typ=message.Type.task,
+        ),
+    }
+    for label in ('WT', 'WWT', 'WAWT'):
+        sink = _Sink()
+        objs = [kinds[c] for c in label]
+        for o in objs:
+            message.send(o, sink)
+        _RECV_STREAMS[label] = ('farm', objs, sink.data)
+    for _fam, objs, data in _RECV_STREAMS.values():
+        # the senders must have produced one frame per message
+        assert [pickle.loads(b) for b in pc.decode_all(data)[0]] == objs
+        assert pc.decode_all(data)[1] == b''
+    return _RECV_STREAMS
+
+
+def run_receive(data, cuts, count):
+    '''-> what `count` calls of the real message.receive deliver'''
+    sock = SegmentSocket(data, cuts)
+    got = []
+    try:
+        for _ in range(count):
+            got.append(repr(message.receive(sock)))
+    except Exception as exc:  # pylint: disable=broad-except
+        got.append('exception ' + type(exc).__name__ + ': ' + str(exc))
+    if sock.pos != len(data):
+        got.append('%d bytes of the stream not consumed' % (len(data) - sock.pos))
+    return got
+
+
+def check_receive(tally, label, cuts):
+    _fam, objs, data = recv_streams()[label]
+    key = ('recv', label)
+    if key not in _EXPECTED:
+        _EXPECTED[key] = [repr(o) for o in objs]
+    expected = _EXPECTED[key]
+    got = run_receive(data, cuts, len(objs))
+    tally.cases += 1
+    tally.distinct.add(('recv', label, tuple(cuts)))
+    if got != expected:
+        tally.violation(
+            'C14.receive',
+            _where(data, cuts),
+            {'kind': 'receive', 'stream': label, 'cuts': list(cuts)},
+            got,
+            expected,
+        )
+
+
 # ----------------------------------------------------------------- handshake
 
 
@@ -667,6 +806,25 @@ def _unit(args):
             k = rng.choice((3, 3, 4, 5, 8))
             cuts = sorted(rng.sample(range(1, len(data)), k - 1))
             check_reassembly(tally, name, label, objs, data, cuts, 'real')
+    elif what == 'recv':
+        _w, label, ks, stride, nrand, seed = args
+        data = recv_streams()[label][2]
+        n = len(data)
+        check_receive(tally, label, ())  # everything has arrived
+        check_receive(tally, label, _frame_cuts(data))  # whole messages
+        check_receive(tally, label, range(1, n))  # byte by byte
+        for k in ks:
+            for cuts in k_splits(n, k):
+                check_receive(tally, label, cuts)
+        if stride:  # pairs of cuts on a grid (every offset of the grid)
+            for off in range(1, stride + 1):
+                for cuts in itertools.combinations(range(off, n, stride), 2):
+                    check_receive(tally, label, cuts)
+        rng = random.Random('%s/recv/%s' % (seed, label))
+        for _ in range(nrand):
+            k = rng.choice((3, 3, 4, 5, 8))
+            cuts = sorted(rng.sample(range(1, n), k - 1))
+            check_receive(tally, label, cuts)
     elif what == 'hs':
         _w, name, faults, tail, ks, nrand, seed = args
         stream = handshake_stream(name, faults, tail)[0]
@@ -702,6 +860,9 @@ def _cost(unit):
     what = unit[0]
     if what == 'compose':
         return 1 << len(_lookup_stream(unit[1], 'tiny', unit[2])[1])
+    if what == 'recv':
+        n = len(recv_streams()[unit[1]][2])
+        return sum(n ** (k - 1) for k in unit[2]) + (n * n // (2 * unit[3]) if unit[3] else 0)
     if what in ('tiny', 'real'):
         n = len(_lookup_stream(unit[1], what, unit[2])[1])
         ks = unit[3]
@@ -731,6 +892,14 @@ def plan(tier, seed):
                 units.append(
                     ('real', name, label, (2,), 4000 if thorough else 250, seed)
                 )
+    for label, (_fam, _objs, data) in recv_streams().items():
+        if thorough:
+            ks = (2, 3, 4) if len(data) <= 120 else (2, 3)
+            units.append(('recv', label, ks, 0, 3000, seed))
+        elif len(data) <= 300:
+            units.append(('recv', label, (2, 3), 0, 100, seed))
+        else:
+            units.append(('recv', label, (2,), 4, 300, seed))
     single = [v for v in variants() if len(v) <= 1]
     for name in ('farm', 'db', 'log'):
         for faults in variants():
@@ -769,7 +938,8 @@ def run(tier: str, seed: int) -> dict:
     else:
         # cheapest units first; under a very busy machine the most expensive
         # ones are skipped (reported through 'exhaustive': False)
-        units.sort(key=_cost)
+        # (the small enumerated receive part first: it is never skipped)
+        units.sort(key=lambda u: (u[0] != 'recv', _cost(u)))
         for u in units:
             if time.time() > t0 + 15.0:
                 skipped += 1
@@ -807,6 +977,7 @@ def run(tier: str, seed: int) -> dict:
             'stream': 'LLL',
             'cuts': list(range(1, n_farm // 2)),
         },
+        {'kind': 'receive', 'stream': 'LLU', 'cuts': [30, 70]},
         {
             'kind': 'handshake',
             'channel': 'farm',
@@ -842,7 +1013,7 @@ def run(tier: str, seed: int) -> dict:
             )
     least = {}
     for (clause, _sig), (size, _rec) in found.items():
-        if clause.startswith('C14.reassembly'):
+        if clause.startswith('C14.reassembly') or clause == 'C14.receive':
             least[clause] = min(size, least.get(clause, size))
     found = {
         key: val
@@ -855,7 +1026,8 @@ def run(tier: str, seed: int) -> dict:
         'rule': (
             'a case is one fresh protocol object fed one stream in one '
             'chunking; distinct = distinct (channel, stream, cut positions) '
-            'resp. (channel, fault set, tail, cut positions); the expected '
+            'resp. (channel, fault set, tail, cut positions) resp. (stream, cut '
+            'positions) for message.receive on the segment socket; the expected '
             'message list is the list of objects that were framed (not the '
             'result of a reference run), the whole-frame chunking is one of '
             'the cases'
@@ -885,6 +1057,8 @@ def replay(case: dict) -> dict:
             list(inp['cuts']),
             kind,
         )
+    elif inp['kind'] == 'receive':
+        check_receive(tally, inp['stream'], list(inp['cuts']))
     else:
         check_handshake(
             tally,
